@@ -281,6 +281,14 @@ def record_history(chk, hseed, kinds, tid, ndims=3, big=True, nops=4, asset=None
         except Exception:
             return False
 
+    def reuse_out(*srcs):
+        """Sometimes the output path is one that an EARLIER operation of the history wrote (a second run into the same output):
+        what the directory then holds must be what THIS operation was asked for."""
+        prev = [d for d in present if d.startswith("d") and d not in srcs]
+        if prev and rng.random() < 0.3:
+            return rng.choice(prev)
+        return None
+
     for step in range(nops):
         kind = rng.choice(kinds)
         src = rng.choice(present)
@@ -296,8 +304,10 @@ def record_history(chk, hseed, kinds, tid, ndims=3, big=True, nops=4, asset=None
                     # an unknown name: a proper prefix of a known one
                     vs.insert(rng.randrange(len(vs) + 1), fields[0][:-1] if len(fields[0]) > 1 and fields[0][:-1] not in fields else "zz")
             L = rng.randrange(nlev[src])
-            nout += 1
-            out = "d%d" % nout
+            out = reuse_out(src, locals().get("src2") if kind == "combine" else None)
+            if out is None:
+                nout += 1
+                out = "d%d" % nout
             line = {"ev": "Strain", "src": src, "out": out, "vars": vs, "L": L}
             call = lambda: Colander(plotfile=kit.path(src), limit_level=L, output=kit.path(out), variables=list(vs)).strain()
         elif kind == "combine":
@@ -313,8 +323,10 @@ def record_history(chk, hseed, kinds, tid, ndims=3, big=True, nops=4, asset=None
                 idx = sorted(rng.sample(range(len(fs)), rng.randint(1, len(fs))))
                 return [fs[i] for i in idx]
             v1, v2 = sub(fields), sub(f2)
-            nout += 1
-            out = "d%d" % nout
+            out = reuse_out(src, locals().get("src2") if kind == "combine" else None)
+            if out is None:
+                nout += 1
+                out = "d%d" % nout
             line = {"ev": "Combine", "src": src, "src2": src2, "out": out, "v1": v1, "v2": v2}
 
             def call():
@@ -329,8 +341,10 @@ def record_history(chk, hseed, kinds, tid, ndims=3, big=True, nops=4, asset=None
             kept = [] if r < 0.3 else (list(fields) if r < 0.5 else
                                         [fields[i] for i in sorted(rng.sample(range(len(fields)), rng.randint(1, len(fields))))])
             serial = rng.random() < 0.5
-            nout += 1
-            out = "d%d" % nout
+            out = reuse_out(src, locals().get("src2") if kind == "combine" else None)
+            if out is None:
+                nout += 1
+                out = "d%d" % nout
             line = {"ev": "Cook", "src": src, "out": out, "kept": kept, "nnew": 1}
             call = lambda: Chef(kit.path(src), recipe=RECIPE, outfile=kit.path(out), serial=serial,
                                 kept_fields=" ".join(kept) if kept else None).cook()
@@ -393,6 +407,13 @@ def record_history(chk, hseed, kinds, tid, ndims=3, big=True, nops=4, asset=None
             continue
         # ---- writers
         wrote = False
+        reused = os.path.exists(kit.path(line["out"])) if "out" in line else False
+        before_out = alpha.tree_digest(kit.path(line["out"])) if reused else None
+        if reused:
+            line["reused_out"] = True
+            readers.pop(line["out"], None)            # objects opened on the directory's earlier content are gone with it
+            for k in [k for k in streams if k[0] == line["out"]]:
+                del streams[k]
         try:
             with shims.pool_shim(sched()), core.quiet():
                 call()
@@ -400,14 +421,14 @@ def record_history(chk, hseed, kinds, tid, ndims=3, big=True, nops=4, asset=None
         except Exception as e:
             outcome = "exc"
             line["exc"] = "%s: %s" % (type(e).__name__, str(e)[:160])
-        wrote = os.path.exists(kit.path(line["out"]))
+        wrote = os.path.exists(kit.path(line["out"])) if not reused else alpha.tree_digest(kit.path(line["out"])) != before_out
         line["outcome"] = outcome
         line["wrote"] = wrote
         for key, d in (("S", line["src"]), ("S2", line.get("src2"))):
             if d:
                 after = kit.content(d)
                 line[key] = plain(after) if after["k"] == "ok" else {"fields": [], "lev": []}
-        R = kit.content(line["out"]) if outcome == "ok" and wrote else {"k": "absent"}
+        R = kit.content(line["out"]) if outcome == "ok" and os.path.exists(kit.path(line["out"])) else {"k": "absent"}
         line["R"] = R
         line["tasted"] = taste(kit.path(line["out"])) if R["k"] == "ok" else False
         if line["ev"] == "Cook":
@@ -429,7 +450,8 @@ def record_history(chk, hseed, kinds, tid, ndims=3, big=True, nops=4, asset=None
         lines.append(line)
         ops.append(kind)
         if R["k"] == "ok":
-            present.append(line["out"])
+            if line["out"] not in present:
+                present.append(line["out"])
             conts[line["out"]] = R
             nlev[line["out"]] = len(R["lev"])
         else:
